@@ -348,8 +348,8 @@ class Body:
             self._cd = cd
         return self._cd
 
-    def guards(self, x):
-        """Transitive control dependences of block x: set of (a, s) edges."""
+    def guards(self, x, forward_only=True):
+        """Transitive control dependences of block x: set of (a, s) edges (loop-carried ones dropped by default)."""
         cd = self.control_deps()
         out = set()
         work = [x]
@@ -357,6 +357,9 @@ class Body:
         while work:
             y = work.pop()
             for (a, s) in cd.get(y, ()):
+                # loop-carried dependences (y runs before a within an iteration) say nothing about how y was reached
+                if forward_only and self.dominates(y, a):
+                    continue
                 if (a, s) not in out:
                     out.add((a, s))
                     if a not in seen:
